@@ -61,6 +61,8 @@ structure Cfg where
   ct : Nat             -- connect_timeout
   ut : Nat             -- command_timeout (0 = unlimited)
   sopt : Bool          -- separate stderr (-s): without it only stdout is polled
+  selfCheck : Bool     -- the worker tests the command timeout itself at the top of its poll loop (the proposed
+                       -- repair of F07-LOSTALRM); false = the pinned source: only the EINTR branch tests it
 deriving DecidableEq, Repr
 
 /-- NEW / RCMD (not yet blocked) / RCMD blocked in connect / READING blocked in xpoll / DONE or FAILED -/
@@ -125,6 +127,44 @@ def Host.pollRound (now : Nat) (h : Host) : Host :=
     { h with out := o.1, err := e.1, reps := reps, ph := .finished, res := .done }
   else { h with out := o.1, err := e.1, reps := reps }
 
+/-- one `read` on a stream: at most the next item -/
+def Stream.pumpOne (base now : Nat) (st : Stream) : Stream × Bool :=
+  if st.closed then (st, false)
+  else match st.items with
+    | [] => ({ st with closed := true }, false)
+    | it :: rest =>
+        if it.avail base now then
+          match it.kind with
+          | .data n => ({ items := rest, got := st.got + n, closed := false }, false)
+          | .eof => ({ items := [], got := st.got, closed := true }, false)
+          | .err => ({ items := [], got := st.got, closed := true }, true)
+        else (st, false)
+
+/-- one pass of the poll loop body: one `read` per polled stream -/
+def Host.oneRound (now : Nat) (h : Host) : Host :=
+  let o := h.out.pumpOne h.conn now
+  let e := h.err.pumpOne h.conn now
+  let reps := h.reps ++ (if o.2 then [Rep.readError] else []) ++ (if e.2 then [Rep.readError] else [])
+  if o.1.closed && e.1.closed then
+    { h with out := o.1, err := e.1, reps := reps, ph := .finished, res := .done }
+  else { h with out := o.1, err := e.1, reps := reps }
+
+/-- `if (_thd_command_timeout (a)) { report; fail; break; }` at the top of the poll loop (repair variant) -/
+def Host.selfTimeout (c : Cfg) (now : Nat) (h : Host) : Host :=
+  if c.selfCheck = true ∧ h.ph = .reading ∧ 0 < c.ut ∧ h.conn + c.ut < now then
+    { h with ph := .finished, res := .cmdTimedOut, reps := h.reps ++ [Rep.cmdTimeout] }
+  else h
+
+/-- the blocked xpoll returns: EINTR (test the command timeout, fail or go on) or data -/
+def Host.wakeCore (c : Cfg) (now : Nat) (h : Host) : Host :=
+  if h.intr then
+    if 0 < c.ut ∧ h.conn + c.ut < now then
+      { h with intr := false, ph := .finished, res := .cmdTimedOut, reps := h.reps ++ [Rep.cmdTimeout] }
+    else Host.pollRound now { h with intr := false }
+  else if c.selfCheck = true ∧ 0 < c.ut ∧ h.conn + c.ut < now then
+    Host.oneRound now h      -- overdue: after one pass the loop top fails the target (`selfTimeout`)
+  else Host.pollRound now h
+
 def connReady (sc : Script) (h : Host) (now : Nat) : Bool :=
   match sc.conn with
   | .ok d => h.cbeg + d ≤ now
@@ -149,12 +189,7 @@ def hostStep (c : Cfg) (sc : Script) (now : Nat) (h : Host) : Local → Host
         | .ok _ => Host.pollRound now { h with conn := now, ph := .reading }
         | .refuse _ => { h with ph := .finished, res := .connFailed }
         | .hang => h
-  | .wake =>
-      if h.intr then
-        if 0 < c.ut ∧ h.conn + c.ut < now then
-          { h with intr := false, ph := .finished, res := .cmdTimedOut, reps := h.reps ++ [Rep.cmdTimeout] }
-        else Host.pollRound now { h with intr := false }
-      else Host.pollRound now h
+  | .wake => Host.selfTimeout c now (Host.wakeCore c now h)
   | .scan => if killed c now h then { h with intr := true } else h
   | .other => h
 
